@@ -37,7 +37,8 @@ def gen_scenario(rng):
     world = gen_world(rng, ngraphs=(1, 3), neps=(0, 24))
     cfg = gen_cfg(rng)
     turns = gen_turns(rng, world)
-    return {"world": world, "cfg": cfg, "turns": turns}
+    # some scenarios boot from an (empty) snapshot directory: the first turn runs the real boot loader
+    return {"world": world, "cfg": cfg, "turns": turns, "boot_from_snapshot": rng.random() < 0.4}
 
 
 def variants_for(sc, rng, tier):
